@@ -13,8 +13,8 @@
      Hence an equation proved by [vm_compute] in a tower is an equation between the
      corresponding real / complex numbers ([evA], [evB] and their value lemmas).
      Only this last part uses the stdlib Reals axioms. *)
-From Coq Require Import ZArith QArith Qcanon Ring_theory Ring Setoid Bool List.
-From LW Require Import Base.Num Base.QI2.
+From Coq Require Import ZArith QArith Qcanon Ring_theory Ring Setoid Bool List Reals Lra Qreals.
+From LW Require Import Base.Num Base.QI2 Base.RInst.
 Import ListNotations.
 
 Class RealElt {K} (o : ops K) (d : K) : Prop := real_elt : kconj o d = d.
@@ -198,3 +198,178 @@ Lemma b_h_r2 : kmul oB b_h b_r2 = k1 oB.
 Proof. apply (by_eqb oB). vm_compute. reflexivity. Qed.
 Lemma b_qi_q : kmul oB b_qi b_q = k1 oB.
 Proof. apply (by_eqb oB). vm_compute. reflexivity. Qed.
+
+(* ------------------------------------------------------------------ evaluation *)
+Record RingHom {K L} (o : ops K) (p : ops L) (f : K -> L) : Prop := mkHom {
+  rh_0 : f (k0 o) = k0 p;
+  rh_1 : f (k1 o) = k1 p;
+  rh_add : forall a b, f (kadd o a b) = kadd p (f a) (f b);
+  rh_mul : forall a b, f (kmul o a b) = kmul p (f a) (f b);
+  rh_sub : forall a b, f (ksub o a b) = ksub p (f a) (f b);
+  rh_opp : forall a, f (kopp o a) = kopp p (f a);
+  rh_conj : forall a, f (kconj o a) = kconj p (f a);
+  rh_ofZ : forall z, f (kofZ o z) = kofZ p z }.
+
+(* a + b sqrt d  |->  f a + f b * s,  s = the chosen real square root of f d *)
+Definition ev_ext {K} (f : K -> R) (s : R) (x : K * K) : R := (f (fst x) + f (snd x) * s)%R.
+(* a + i b  |->  (f a, f b) *)
+Definition ev_cplx {K} (f : K -> R) (x : K * K) : R * R := (f (fst x), f (snd x)).
+
+Lemma ev_ext_hom {K} (o : ops K) (d : K) (f : K -> R) (s : R) :
+  RingHom o rops f -> (s * s = f d)%R -> RingHom (qext o d) rops (ev_ext f s).
+Proof.
+  intros H Hs. constructor; unfold ev_ext; simpl; intros;
+    repeat first [rewrite (rh_add _ _ _ H) | rewrite (rh_mul _ _ _ H) | rewrite (rh_sub _ _ _ H)
+                 | rewrite (rh_opp _ _ _ H) | rewrite (rh_conj _ _ _ H) | rewrite (rh_ofZ _ _ _ H)
+                 | rewrite (rh_0 _ _ _ H) | rewrite (rh_1 _ _ _ H)]; simpl;
+    try rewrite <- Hs; ring.
+Qed.
+
+Lemma ev_cplx_hom {K} (o : ops K) (f : K -> R) :
+  RingHom o rops f -> RingHom (cplx o) cops (ev_cplx f).
+Proof.
+  intros H. constructor; unfold ev_cplx; simpl; unfold Num.cadd, cmul, csub, copp, cconj; simpl; intros;
+    repeat first [rewrite (rh_add _ _ _ H) | rewrite (rh_mul _ _ _ H) | rewrite (rh_sub _ _ _ H)
+                 | rewrite (rh_opp _ _ _ H) | rewrite (rh_ofZ _ _ _ H)
+                 | rewrite (rh_0 _ _ _ H) | rewrite (rh_1 _ _ _ H)]; simpl; reflexivity.
+Qed.
+
+Definition qc2r (x : Qc) : R := Q2R (this x).
+
+Lemma qc2r_Q2Qc q : qc2r (Q2Qc q) = Q2R q.
+Proof. unfold qc2r. simpl. apply Qeq_eqR. apply Qred_correct. Qed.
+
+Lemma qc2r_hom : RingHom qcops rops qc2r.
+Proof.
+  constructor; simpl; intros.
+  - rewrite qc2r_Q2Qc. unfold Q2R. simpl. lra.
+  - rewrite qc2r_Q2Qc. unfold Q2R. simpl. lra.
+  - unfold Qcplus. rewrite qc2r_Q2Qc. apply Q2R_plus.
+  - unfold Qcmult. rewrite qc2r_Q2Qc. apply Q2R_mult.
+  - unfold Qcminus, Qcplus. rewrite qc2r_Q2Qc, Q2R_plus.
+    change (Q2R (this (Qcopp b))) with (qc2r (Qcopp b)). unfold Qcopp. rewrite qc2r_Q2Qc, Q2R_opp.
+    unfold qc2r. ring.
+  - unfold Qcopp. rewrite qc2r_Q2Qc. apply Q2R_opp.
+  - reflexivity.
+  - rewrite qc2r_Q2Qc. unfold Q2R. simpl. field.
+Qed.
+
+Lemma ev_ext_qin {K} (o : ops K) f s x : ev_ext f s (qin o x) = (f x + f (k0 o) * s)%R.
+Proof. reflexivity. Qed.
+Lemma ev_ext_qgen {K} (o : ops K) f s : ev_ext f s (qgen o) = (f (k0 o) + f (k1 o) * s)%R.
+Proof. reflexivity. Qed.
+
+Lemma sqrt_sq x : (0 <= x)%R -> (sqrt x * sqrt x = x)%R.
+Proof. intros. apply sqrt_def. assumption. Qed.
+
+Lemma qc2r_qq n d : qc2r (qq n d) = (IZR n / IZR (Zpos d))%R.
+Proof. unfold qq. rewrite qc2r_Q2Qc. reflexivity. Qed.
+
+(* ---- tower A ---- *)
+Definition evA1 : KA1 -> R := ev_ext qc2r (sqrt 2).
+Definition evA2 : KA2 -> R := ev_ext evA1 (sqrt 3).
+Definition evA : KA -> R := ev_ext evA2 (sqrt 7).
+Definition evCA : TA -> R * R := ev_cplx evA.
+
+Lemma evA1_hom : RingHom oA1 rops evA1.
+Proof.
+  apply ev_ext_hom; [exact qc2r_hom|]. rewrite qc2r_qq. rewrite sqrt_sq by lra. field.
+Qed.
+Lemma evA2_hom : RingHom oA2 rops evA2.
+Proof.
+  apply ev_ext_hom; [exact evA1_hom|]. rewrite (rh_ofZ _ _ _ evA1_hom). simpl. apply sqrt_sq. lra.
+Qed.
+Lemma evA_hom : RingHom oA rops evA.
+Proof.
+  apply ev_ext_hom; [exact evA2_hom|]. rewrite (rh_ofZ _ _ _ evA2_hom). simpl. apply sqrt_sq. lra.
+Qed.
+Lemma evCA_hom : RingHom cA cops evCA.
+Proof. exact (ev_cplx_hom oA evA evA_hom). Qed.
+
+Lemma q0r : qc2r (k0 qcops) = 0%R. Proof. exact (rh_0 _ _ _ qc2r_hom). Qed.
+Lemma q1r : qc2r (k1 qcops) = 1%R. Proof. exact (rh_1 _ _ _ qc2r_hom). Qed.
+
+Lemma evA_values :
+  evA a_r2 = sqrt 2 /\ evA a_r3 = sqrt 3 /\ evA a_r7 = sqrt 7 /\
+  evA a_h = (/ sqrt 2)%R /\ evA a_r3i = (/ sqrt 3)%R.
+Proof.
+  assert (E2 : evA a_r2 = sqrt 2).
+  { unfold evA, a_r2. rewrite ev_ext_qin, (rh_0 _ _ _ evA2_hom).
+    unfold evA2. rewrite ev_ext_qin, (rh_0 _ _ _ evA1_hom).
+    unfold evA1. rewrite ev_ext_qgen, q0r, q1r. simpl. ring. }
+  assert (E3 : evA a_r3 = sqrt 3).
+  { unfold evA, a_r3. rewrite ev_ext_qin, (rh_0 _ _ _ evA2_hom).
+    unfold evA2. rewrite ev_ext_qgen, (rh_0 _ _ _ evA1_hom), (rh_1 _ _ _ evA1_hom). simpl. ring. }
+  assert (E7 : evA a_r7 = sqrt 7).
+  { unfold evA, a_r7. rewrite ev_ext_qgen.
+    rewrite (rh_0 _ _ _ evA2_hom), (rh_1 _ _ _ evA2_hom). simpl. ring. }
+  assert (P2 : (0 < sqrt 2)%R) by (apply sqrt_lt_R0; lra).
+  assert (P3 : (0 < sqrt 3)%R) by (apply sqrt_lt_R0; lra).
+  repeat split; try assumption.
+  - generalize (f_equal evA a_h_r2). rewrite (rh_mul _ _ _ evA_hom), (rh_1 _ _ _ evA_hom), E2. simpl.
+    intros H. apply Rmult_eq_reg_r with (sqrt 2); [|lra]. rewrite H. field. lra.
+  - generalize (f_equal evA a_r3i_r3). rewrite (rh_mul _ _ _ evA_hom), (rh_1 _ _ _ evA_hom), E3. simpl.
+    intros H. apply Rmult_eq_reg_r with (sqrt 3); [|lra]. rewrite H. field. lra.
+Qed.
+
+(* ---- tower B ---- *)
+Definition gamma2 : R := (3 / sqrt 2 - 2)%R.
+Lemma gamma2_pos : (0 <= gamma2)%R.
+Proof.
+  unfold gamma2.
+  assert (P2 : (0 < sqrt 2)%R) by (apply sqrt_lt_R0; lra).
+  assert (S2 : (sqrt 2 * sqrt 2 = 2)%R) by (apply sqrt_sq; lra).
+  assert (L : (4 / 3 <= sqrt 2)%R) by nra.
+  assert (E : (3 / sqrt 2 = 3 * sqrt 2 / 2)%R) by (field_simplify_eq; [nra|lra]).
+  rewrite E. lra.
+Qed.
+
+Definition evB1 : KB1 -> R := ev_ext qc2r (sqrt 2).
+Definition evB2 : KB2 -> R := ev_ext evB1 (sqrt (sqrt 2)).
+Definition evB : KB -> R := ev_ext evB2 (sqrt gamma2).
+Definition evCB : TB -> R * R := ev_cplx evB.
+
+Lemma evB1_hom : RingHom oB1 rops evB1.
+Proof. exact evA1_hom. Qed.
+Lemma evB2_hom : RingHom oB2 rops evB2.
+Proof.
+  apply ev_ext_hom; [exact evB1_hom|].
+  unfold evB1. rewrite ev_ext_qgen, q0r, q1r.
+  rewrite sqrt_sq by (apply sqrt_pos). ring.
+Qed.
+Lemma evB_hom : RingHom oB rops evB.
+Proof.
+  apply ev_ext_hom; [exact evB2_hom|].
+  rewrite sqrt_sq by exact gamma2_pos.
+  unfold evB2, b_gam2. rewrite ev_ext_qin, (rh_0 _ _ _ evB1_hom).
+  unfold evB1, ev_ext. cbn [fst snd]. rewrite !qc2r_qq. unfold gamma2.
+  assert (P2 : (0 < sqrt 2)%R) by (apply sqrt_lt_R0; lra).
+  assert (S2 : (sqrt 2 * sqrt 2 = 2)%R) by (apply sqrt_sq; lra).
+  simpl. assert (E : (3 / sqrt 2 = 3 * sqrt 2 / 2)%R) by (field_simplify_eq; [nra|lra]).
+  rewrite E. lra.
+Qed.
+Lemma evCB_hom : RingHom cB cops evCB.
+Proof. exact (ev_cplx_hom oB evB evB_hom). Qed.
+
+Lemma evB_values :
+  evB b_r2 = sqrt 2 /\ evB b_q = sqrt (sqrt 2) /\ evB b_g = sqrt (3 / sqrt 2 - 2) /\
+  evB b_h = (/ sqrt 2)%R /\ evB b_qi = (/ sqrt (sqrt 2))%R.
+Proof.
+  assert (E2 : evB b_r2 = sqrt 2).
+  { unfold evB, b_r2. rewrite ev_ext_qin, (rh_0 _ _ _ evB2_hom).
+    unfold evB2. rewrite ev_ext_qin, (rh_0 _ _ _ evB1_hom).
+    unfold evB1. rewrite ev_ext_qgen, q0r, q1r. simpl. ring. }
+  assert (Eq : evB b_q = sqrt (sqrt 2)).
+  { unfold evB, b_q. rewrite ev_ext_qin, (rh_0 _ _ _ evB2_hom).
+    unfold evB2. rewrite ev_ext_qgen, (rh_0 _ _ _ evB1_hom), (rh_1 _ _ _ evB1_hom). simpl. ring. }
+  assert (Eg : evB b_g = sqrt gamma2).
+  { unfold evB, b_g. rewrite ev_ext_qgen.
+    rewrite (rh_0 _ _ _ evB2_hom), (rh_1 _ _ _ evB2_hom). simpl. ring. }
+  assert (P2 : (0 < sqrt 2)%R) by (apply sqrt_lt_R0; lra).
+  assert (P4 : (0 < sqrt (sqrt 2))%R) by (apply sqrt_lt_R0; lra).
+  repeat split; try assumption.
+  - generalize (f_equal evB b_h_r2). rewrite (rh_mul _ _ _ evB_hom), (rh_1 _ _ _ evB_hom), E2. simpl.
+    intros H. apply Rmult_eq_reg_r with (sqrt 2); [|lra]. rewrite H. field. lra.
+  - generalize (f_equal evB b_qi_q). rewrite (rh_mul _ _ _ evB_hom), (rh_1 _ _ _ evB_hom), Eq. simpl.
+    intros H. apply Rmult_eq_reg_r with (sqrt (sqrt 2)); [|lra]. rewrite H. field. lra.
+Qed.
